@@ -27,11 +27,11 @@ from __future__ import annotations
 import ast
 from dataclasses import dataclass
 
-from core.guards import FALSE, TRUE, Formula, atom, atoms_of, conds_formula, equivalent, f_and, f_not, f_or, implies, to_formula
+from core.guards import Formula, atom, atoms_of, conds_formula, equivalent, f_and, f_not, f_or, implies, to_formula
 from core.loader import FuncInfo, Repo, ancestors, norm, parent
 
 from .c05_views import all_nodes, assignments_of, dview, single_value, stores_of, value_cases
-from .common import conds, stmt_of
+from .common import conds
 
 Tag = tuple
 LOOKUP = "get_layer_for_module_name"
